@@ -20,6 +20,8 @@ read-only / read-write / renamed properties, a property whose name starts with t
   X-PROPS     property names matched by `get` / `set` equal the literals of the proxy's `get_property` /
               `set_property` (and `cached_property`, `receive_property_changed`); per property the getter's /
               setter's value type and the proxy's type parameter have the same signature
+              the names the generated `builder()` passes to `Builder::uncached_properties` are exactly the
+              properties the interface annotates EmitsChangedSignal=false
   X-SIGNALS   the signal name the generated emitter passes to `SignalEmitter::emit` equals the literal of the
               proxy's `receive_signal`, and the emitted body tuple has the signature of the proxy's `<Signal>Args`
   X-FLAVOURS  the async and the blocking proxy agree with each other member by member
@@ -293,6 +295,23 @@ def proxy_tables(ctx, f, ty):
     return methods, getp, setp, signals, other
 
 
+def uncached_names(f, ty):
+    """string literals of the array(s) built in `<Proxy>::builder`, the function that calls Builder::uncached_properties"""
+    for b in f.all_bodies(ty.split("::")[0]):
+        if b.root == b.id and b.id.startswith(ty + "::<") and b.name == "builder":
+            if not [c for c in mir.calls(b) if c.is_("uncached_properties")]:
+                return None
+            out = []
+            for bi, i, pl, rv, ln in mir.assignments(b):
+                if rv[0] == "agg" and rv[1] == "array":
+                    for op in rv[4]:
+                        v = lit(b, op)
+                        if v is not None:
+                            out.append(v)
+            return out
+    return None
+
+
 def args_struct_sig(f, crate, signal):
     a = f.adts.get("%s::%sArgs" % (crate, signal))
     if not a:
@@ -367,6 +386,15 @@ def run(ctx):
                         ok = False
                 ctx.ob("X-PROPS", "%s<->%s:%s:%s" % (ikey, ty, rname, m), ok,
                        "%s(%r) :: %s against the interface's readable property table" % (m, nm, t), where)
+            # ---- uncached list (added after seeded change C33a): the names the generated `builder()` hands to
+            # Builder::uncached_properties must be D-Bus member names, namely exactly the properties the interface
+            # annotates with EmitsChangedSignal=false (their changes are never announced, a cached copy goes stale)
+            unc = uncached_names(f, ty)
+            props_decl, bad = L.introspected_properties(ctx, it)
+            never = {n for n, (acc, kind) in props_decl.items() if kind == "false" and "read" in acc}
+            ctx.ob("X-PROPS", "%s<->%s:uncached-list" % (ikey, ty), unc is not None and set(unc) == never,
+                   "proxy never caches %s; the interface never announces changes of %s" % (sorted(unc or []), sorted(never))
+                   if unc is not None else "no Builder::uncached_properties call found in the generated builder()", it.where)
             # ---- signals
             ctx.ob("X-SIGNALS", "%s<->%s:signal-names" % (ikey, ty), set(isig) == set(psig),
                    "interface emits %s; proxy receives %s" % (sorted(isig), sorted(psig)), it.where)
